@@ -129,6 +129,68 @@ def first_diff(a, b, path='', lenient=False):
     return None
 
 
+def _type_key(t):
+    """What a type *names* (robust against representation: no flags, no c:types)."""
+    if t is None:
+        return None
+    cls = type(t).__name__
+    if cls in ('Array', 'List'):
+        return [cls, getattr(t, 'array_type', None) or getattr(t, 'name', None), _type_key(t.element_type)]
+    if cls == 'Map':
+        return [cls, _type_key(t.key_type), _type_key(t.value_type)]
+    if cls == 'Varargs':
+        return ['Varargs']
+    return getattr(t, 'target_giname', None) or getattr(t, 'target_fundamental', None) or ('ctype:%s' % getattr(t, 'ctype', None))
+
+
+def core_projection(ns):
+    """A deliberately small projection used to compare the model that was WRITTEN (the pipeline's namespace) with
+    the model READ back: node kinds, C identifiers, and for every callable the named types, transfer and direction
+    of its values. Representation differences (None vs default, int vs str, is_const) do not enter it."""
+    out = {}
+
+    def callable_(c):
+        d = {'ret': [_type_key(c.retval.type), c.retval.transfer], 'throws': bool(c.throws), 'params': []}
+        for p in c.parameters:
+            d['params'].append([p.argname, _type_key(p.type), p.transfer, p.direction or 'in'])
+        ip = getattr(c, 'instance_parameter', None)
+        if ip is not None:
+            d['instance'] = [ip.argname, _type_key(ip.type)]
+        return d
+
+    for name, node in ns.names.items():
+        if getattr(node, 'internal_skipped', False):
+            continue
+        cls = type(node).__name__
+        e = {'class': cls, 'ctype': getattr(node, 'ctype', None), 'symbol': getattr(node, 'symbol', None)}
+        if hasattr(node, 'parameters') and hasattr(node, 'retval'):
+            e['sig'] = callable_(node)
+        for attr in ('methods', 'constructors', 'static_methods', 'virtual_methods', 'signals'):
+            for m in getattr(node, attr, None) or []:
+                if getattr(m, 'internal_skipped', False):
+                    continue            # non-introspectable compatibility copies are not written at all
+                e.setdefault(attr, {})[m.name] = callable_(m)
+        for f in getattr(node, 'fields', None) or []:
+            if getattr(f, 'type', None) is not None:
+                e.setdefault('fields', {})[f.name] = _type_key(f.type)
+        for pr in getattr(node, 'properties', None) or []:
+            e.setdefault('properties', {})[pr.name] = _type_key(pr.type)
+        pt = getattr(node, 'parent_type', None)
+        if pt is not None and cls == 'Class':       # interfaces carry an implied parent that is not written
+            e['parent'] = _type_key(pt)
+        for attr in ('interfaces', 'prerequisites'):
+            v = getattr(node, attr, None)
+            if v:
+                e[attr] = sorted(str(_type_key(t)) for t in v)
+        ts = getattr(node, 'glib_type_struct', None)
+        if ts is not None:
+            e['type_struct'] = _type_key(ts)
+        if cls == 'Alias':
+            e['target'] = _type_key(node.target)
+        out[name] = e
+    return out
+
+
 def _bytes_diff(a, b):
     la, lb = a.decode('utf-8', 'replace').split('\n'), b.decode('utf-8', 'replace').split('\n')
     for i, (x, y) in enumerate(zip(la, lb)):
@@ -203,6 +265,10 @@ def check_case(case, ctx):
     d = first_diff(project_namespace(ns1, ast), project_namespace(ns2, ast))
     if d:
         raise Violation('model-changes-on-reread', d)
+    # the model that was written vs the model read back (names, named types, ownership, direction)
+    d = first_diff(core_projection(ns0), core_projection(ns1))
+    if d:
+        raise Violation('read-model-differs-from-written-model', d)
     kinds = set(type(n).__name__ for n in ns0.names.values())
     esc = any(NEEDS_ESC & set(c['doc']) for c in case['meta']['callables'])
     ctx.label('kinds>=5' if len(kinds) >= 5 else 'kinds<5')
